@@ -312,6 +312,11 @@ fn collect_flow_count_flags_from_expr(expr: &Expression, targets: &mut BTreeMap<
         Expression::Variable(name) => {
             add_flow_count_flags(targets, name, COUNT_VISITS);
         }
+        // A divert target used as a value (stored in a variable, passed as an argument)
+        // may end up in TURNS_SINCE / READ_COUNT through that variable: count both.
+        Expression::DivertTarget(target) => {
+            add_flow_count_flags(targets, target, COUNT_VISITS | COUNT_TURNS);
+        }
         Expression::Negate(inner) | Expression::Not(inner) => {
             collect_flow_count_flags_from_expr(inner, targets);
         }
@@ -337,6 +342,9 @@ impl EmitContext {
         let qualified_choice_labels = collect_story_choice_labels(story);
         let unqualified_flow_targets = collect_unqualified_flow_targets(story);
         let mut raw_flow_count_flags = BTreeMap::new();
+        for global in story.globals() {
+            collect_flow_count_flags_from_expr(&global.initial_value, &mut raw_flow_count_flags);
+        }
         collect_flow_count_flags_from_nodes(story.root(), &mut raw_flow_count_flags);
         collect_flow_count_flags_from_flows_into(story.flows(), &mut raw_flow_count_flags);
         let mut flow_count_flags = BTreeMap::new();
